@@ -551,6 +551,7 @@ pub fn run_static(tc: &TestCase, cap: usize, rng_seed: u64) -> (Vec<String>, Vec
         Ok(Err(_)) => lines.push("static notstatic".to_string()),
         Ok(Ok(mut it)) => {
             lines.push("static ok".to_string());
+            let mut n_err = 0usize;
             let mut k = 0;
             loop {
                 if k >= cap {
@@ -570,7 +571,14 @@ pub fn run_static(tc: &TestCase, cap: usize, rng_seed: u64) -> (Vec<String>, Vec
                     Ok(Some(Err(e))) => {
                         lines.push(format!("sitem {k} err runtime"));
                         lines.push(format!("# {e}"));
-                        break;
+                        // the run is continued behind error items (up to five), behind a `posterr` marker
+                        if n_err == 0 {
+                            lines.push("posterr".to_string());
+                        }
+                        n_err += 1;
+                        if n_err >= 5 {
+                            break;
+                        }
                     }
                     Ok(Some(Ok(row))) => {
                         let exp: Vec<String> = row
